@@ -8,6 +8,10 @@
 //            sparse <N>           N keys created in one cycle, all but a few removed (slots far above the live entry count),
 //                                 then every subset of the survivors ticks, then new keys arrive
 //            random <H> <n> <seed> n sampled histories of H cycles over 6 keys
+//            keys <H> [n seed]    explicit __keys__ (a TSS) next to ONE multiplexed dictionary over 2 keys: per key and cycle the key set
+//                                 op (nothing / add / remove) x the dictionary op (nothing / set / remove); a child exists exactly while its
+//                                 key is in __keys__, is evaluated when its element ticks or (re)appears or when it is created next to an
+//                                 existing element, and keeps its state while only the element leaves and returns
 // exit 0 ok / 1 violation (first failing history printed as FAILING-PROGRAM ...)      (SHARD=i/k splits 'small')
 #include <hgraph/lib/testing/eval_node.h>
 #include <hgraph/lib/testing/record_replay.h>
@@ -16,6 +20,7 @@
 #include <hgraph/types/graph_wiring.h>
 #include <hgraph/types/static_node.h>
 #include <hgraph/types/wired_fn.h>
+#include <hgraph/types/subgraph_wiring.h>
 #include <cstdio>
 #include <cstdlib>
 #include <iostream>
@@ -83,6 +88,75 @@ bool run_history(const std::vector<CycleOps> &h, const std::string &label) {
     return true;
 }
 
+// ---- explicit __keys__ family
+using KS = TSS<Int>;
+struct KeysMapG { static constexpr auto name = "c10_keys_map_g";
+    static Port<DI> compose(Wiring &w, Port<KS> keys, Port<DI> values) {
+        return wire<stdlib::map_>(w, fn<KeyCounter>(), values, arg<"__keys__">(keys)).as<DI>(); } };
+
+struct KCycle { std::vector<Int> key_add, key_remove; std::map<Int, Int> sets; std::vector<Int> removes; };
+
+bool empty_tick(const std::optional<Value> &v) {
+    if (!v.has_value()) return true;
+    return v->view().to_string() == "{removed: {}, modified: {}}";
+}
+
+bool run_keys_history(const std::vector<KCycle> &h, const std::string &label) {
+    ++g_count;
+    VS kin, vin, expected;
+    std::set<Int> keys; std::map<Int, Int> dict; std::map<Int, Int> count; std::set<Int> published;
+    for (const KCycle &c : h) {
+        std::vector<Int> out_removed; std::map<Int, Int> out_sets; std::set<Int> created;
+        for (Int k : c.key_remove) { keys.erase(k); count.erase(k); if (published.erase(k)) out_removed.push_back(k); }
+        for (Int k : c.key_add) { keys.insert(k); count[k] = 0; created.insert(k); }
+        for (Int k : c.removes) dict.erase(k);
+        for (auto &[k, v] : c.sets) dict[k] = v;
+        for (Int k : keys) {
+            if (!dict.count(k)) continue;
+            if (c.sets.count(k) || created.count(k)) { const Int n = ++count[k]; out_sets[k] = k * 1000000 + dict[k] * 100 + n; published.insert(k); }
+        }
+        if (c.key_add.empty() && c.key_remove.empty()) kin.emplace_back(std::nullopt);
+        else kin.emplace_back(set_delta<Int>(c.key_add, c.key_remove));
+        if (c.sets.empty() && c.removes.empty()) vin.emplace_back(std::nullopt); else vin.emplace_back(delta_of(c.sets, c.removes));
+        if (out_sets.empty() && out_removed.empty()) expected.emplace_back(std::nullopt); else expected.emplace_back(delta_of(out_sets, out_removed));
+    }
+    VS out;
+    try { out = eval_node<KeysMapG>(kin, vin); }
+    catch (const std::exception &e) { std::cout << "FAILING-PROGRAM " << label << ":: run failed: " << e.what() << "\n"; return false; }
+    const std::size_t n = std::max(out.size(), expected.size());
+    const std::optional<Value> none{};
+    for (std::size_t i = 0; i < n; ++i) {
+        const auto &a = i < out.size() ? out[i] : none;
+        const auto &e = i < expected.size() ? expected[i] : none;
+        // a tick that carries nothing (the initial empty publication of the dictionary) is not part of any key's stream
+        const bool same = (empty_tick(a) && empty_tick(e)) || (a.has_value() && e.has_value() && a->equals(*e));
+        if (!same) {
+            std::cout << "FAILING-PROGRAM " << label << ":: cycle " << i << " map_ output tick " << show(a).substr(0, 400)
+                      << " but the function run independently per key of __keys__ gives " << show(e).substr(0, 400) << "\n";
+            return false;
+        }
+    }
+    return true;
+}
+
+// codes per cycle: per key (2 keys) a digit 0..8 = key-set op * 3 + dictionary op   (ops that do not apply are dropped)
+bool run_keys_codes(const std::vector<std::vector<int>> &codes) {
+    std::set<Int> keys, dict; std::vector<KCycle> h; Int tick = 0; std::ostringstream text;
+    for (const auto &c : codes) {
+        KCycle ops; ++tick; text << "[";
+        for (std::size_t k = 0; k < c.size(); ++k) {
+            const int kop = c[k] / 3, dop = c[k] % 3;
+            if (kop == 1 && !keys.count((Int)k)) { ops.key_add.push_back((Int)k); keys.insert((Int)k); text << "keys+" << k << ";"; }
+            else if (kop == 2 && keys.count((Int)k)) { ops.key_remove.push_back((Int)k); keys.erase((Int)k); text << "keys-" << k << ";"; }
+            if (dop == 1) { ops.sets[(Int)k] = tick; dict.insert((Int)k); text << "set(" << k << "," << tick << ");"; }
+            else if (dop == 2 && dict.count((Int)k)) { ops.removes.push_back((Int)k); dict.erase((Int)k); text << "remove(" << k << ");"; }
+        }
+        text << "] ";
+        h.push_back(std::move(ops));
+    }
+    return run_keys_history(h, "keys " + text.str());
+}
+
 std::string text_of(const std::vector<CycleOps> &h) {
     std::ostringstream s;
     for (const auto &c : h) { s << "["; for (auto &[k, v] : c.sets) s << "set(" << k << "," << v << ");"; for (Int k : c.removes) s << "remove(" << k << ");"; s << "] "; }
@@ -126,6 +200,19 @@ int main(int argc, char **argv) {
             else if ((leaf++ % shards) != shard) continue;
             std::vector<std::vector<int>> codes; for (auto i : idx) codes.push_back(shapes[i]);
             ok = run_codes(codes, family);
+        } while (ok && (sample ? g_count < sample : next()));
+    } else if (family == "keys") {
+        const int H = argc > 2 ? std::atoi(argv[2]) : 2;
+        const long sample = argc > 3 ? std::atol(argv[3]) : 0;
+        std::mt19937 rng(argc > 4 ? (unsigned)std::atol(argv[4]) : 1);
+        std::vector<std::size_t> idx(H, 0);
+        long leaf = 0;
+        auto next = [&]() { for (auto &d : idx) { if (++d < 81) return true; d = 0; } return false; };
+        do {
+            if (sample) for (auto &d : idx) d = rng() % 81;
+            else if ((leaf++ % shards) != shard) continue;
+            std::vector<std::vector<int>> codes; for (auto i : idx) codes.push_back({(int)(i % 9), (int)(i / 9)});
+            ok = run_keys_codes(codes);
         } while (ok && (sample ? g_count < sample : next()));
     } else {
         const Int N = argc > 2 ? std::atol(argv[2]) : 70;
